@@ -308,6 +308,50 @@ def fam_cancel_first():
                 yield {"observe": True, "iter": None, "events": pre + [first] + tail}
 
 
+def fam_tuning(R):
+    """the request's transport tuning as a dimension: none, an instance, the classes aiocoap.Reliable / Unreliable
+    (as aiocoap-client passes them), an application's subclass passed as a class, a tuning of other constants, and
+    tunings that set OBSERVATION_RESET_TIME themselves (instance and class) -- crossed with notifications that are
+    not serial-number-newer (reordered, duplicated, half a circle away, renumbered) at gaps around the reset time
+    that applies (and around 128 s where the tuning says otherwise), terminating responses and consumers"""
+    for kind in c07_pipe.TUNINGS:
+        Rk = c07_pipe.tuned_reset_ticks(kind, R)
+        gaps = [0, 1, Rk - 1, Rk, Rk + 1] + ([R - 1, R, R + 1] if Rk != R else [])
+        for v1 in (5, M24 - 1):
+            for d in (0, 1, -1, M23 - 1, M23, M23 + 1):
+                v2 = (v1 + d) % M24
+                for gap in gaps:
+                    yield {"observe": True, "iter": None, "tuning": kind,
+                           "events": [notif(7, v1, 0), notif(7 + gap, v2, 1), notif(8 + gap, v2, 2),
+                                      notif(9 + gap, v1, 3)]}
+        # reordered / duplicated / renumbered after the reset time / exactly at it, then the final response
+        for it in (None, {"mode": "attentive", "start": 0}, {"mode": "busy", "start": 0, "work": 2},
+                   {"mode": "lazy", "start": 3}):
+            for term in (["M", 0, 132, None, 90, 1], ["M", 0, 69, None, 90, 0], ["X", 0, 2], None):
+                t = 3
+                evs = [notif(t, 10, 0)]
+                for i, (v, g) in enumerate([(12, 2), (11, 2), (12, 2), (13, 2), (5, Rk + 1), (6, 1), (3, Rk), (7, 5)]):
+                    t += g
+                    evs.append(notif(t, v, i + 1))
+                if term is not None:
+                    e = list(term)
+                    e[1] = t + 3
+                    evs.append(e)
+                    evs.append(notif(t + 6, 14, 60))
+                yield {"observe": True, "iter": it, "tuning": kind, "events": evs}
+        steps = [(v, g) for v in (9, 10, 11) for g in gaps]
+        for seq in itertools.product(steps, repeat=2):
+            t = 3
+            evs = [notif(t, 10, 0)]
+            for i, (v, g) in enumerate(seq):
+                t += g
+                evs.append(notif(t, v, i + 1))
+            yield {"observe": True, "events": evs, "iter": None, "tuning": kind}
+        # not observable / transport failure of the request itself under every tuning
+        for first in (["M", 3, 69, None, 1, 1], ["M", 3, 132, 5, 1, 0], ["X", 3, 2]):
+            yield {"observe": True, "iter": None, "tuning": kind, "events": [first, notif(9, 11, 2)]}
+
+
 DELTAS = [1, 1, 1, 2, 3, 0, -1, -2, M23 - 1, M23, M23 + 1, -(M23 - 1), -M23, -(M23 + 1), M24 - 1]
 
 
@@ -368,6 +412,17 @@ def random_history(rng, R):
     h = {"observe": observe, "events": out, "iter": it}
     if rng.random() < 0.15:
         h["eb_cancels"] = True
+    if rng.random() < 0.3:
+        h["tuning"] = rng.choice(c07_pipe.TUNINGS[1:])
+        Rk = c07_pipe.tuned_reset_ticks(h["tuning"], R)
+        if Rk != R:
+            # the gaps of this history were drawn around R: move them to around the reset time that applies
+            shift, prev = 0, None
+            for e in out:
+                if prev is not None and e[1] - prev >= R - 1:
+                    shift += R - Rk if rng.random() < 0.7 else 0
+                prev = e[1]
+                e[1] -= shift
     return h
 
 
@@ -383,6 +438,7 @@ def level_a_cases(env, R):
     fams.append(("cancel-in-callback", list(fam_cancel_in_callback())))
     fams.append(("response-cancel", list(fam_response_cancel())))
     fams.append(("errback-cancels", list(fam_errback_cancels())))
+    fams.append(("tuning", list(fam_tuning(R))))
     wrap = [M24 - 2, M24 - 1, 0, 1]
     half = [5, 5 + M23 - 1, 5 + M23, 5 + M23 + 1]
     over = [0, M24 - 1, M24, M24 + 1]
@@ -695,6 +751,9 @@ def classify(rep, fam, h, res):
     n_notif = sum(1 for e in h["events"][1:] if e[0] == "M" and e[3] is not None)
     ebs = [c07_pipe.Bench.exc_name(d[1]) for (_, dels, _) in res["raw"] for d in dels if d[0] == "eb"]
     rep.count("a:family=" + fam)
+    if h.get("tuning") is not None:
+        k = h["tuning"]
+        rep.count("a:tuning=" + (k if isinstance(k, str) else "%s:%d" % tuple(k)))
     if h.get("eb_cancels") and ebs:
         rep.count("a:errback-cancels:" + ebs[0])
     rep.count("a:events=%d" % min(len(h["events"]), 13))
@@ -731,7 +790,7 @@ async def run_level_a(env, rep, bench, R, fams):
             cases.append({"level": "a", "history": h})
         compare(env, rep, cases, lines, impl, what="Request._run over a real Pipe (%s)" % fam)
         if fam.startswith("perm") or fam in ("pairs", "timing", "terminators", "app", "cancel-first", "codes",
-                                             "cancel-in-callback", "response-cancel", "errback-cancels"):
+                                             "cancel-in-callback", "response-cancel", "errback-cancels", "tuning"):
             rep.exhaustive_parts.append(f"{fam}: {len(hs)} histories")
 
 
@@ -859,8 +918,65 @@ APP_CONSUMERS = [("callbacks", 0, 0), ("iter", 0, 0), ("iter", 0, 2), ("iter", 0
                  ("poll", 0, 0), ("poll", 0, 2), ("poll", 3, 0)]
 
 
-def level_c_cases(env):
+APP_OTHERS = [[[1, 0]], [[1, 1]], [[1, 0], [2, 0]], [[1, 1], [2, 1]], [[2, 0], [2, 1]], [[-1, 0]], [[-1, 1]],
+              [[-1, 0], [1, 1]], [[-1, 1], [1, 0]], [[0, 0]], [[0, 1]], [[-1, 0], [-1, 1], [1, 0], [1, 1]]]
+
+
+def app_concurrent_cases():
+    """further requests of the application outstanding -- to the observation's peer or to another one, registered
+    before the observing request, while it awaits its first response, or later (so that the observation is the
+    oldest, a middle or the newest entry of the token manager) -- when the transport reports a failure for the
+    observation's peer (time-out of retransmissions, network error), for the OTHER peer, or a Reset of the request"""
+    scripts = [
+        [["M", 69, 10, 1], ["M", 69, 11, 2], ["X", 2]],
+        [["M", 69, 10, 1], ["M", 69, 11, 2], ["X", 1], ["M", 69, 12, 3]],
+        [["M", 69, 10, 1], ["M", 69, 11, 2], ["X", 2, 1], ["M", 69, 12, 3], ["M", 132, None, 4]],
+        [["M", 69, 10, 1], ["M", 69, 11, 2], ["X", 1, 1], ["X", 2, 0], ["M", 69, 12, 3]],
+        [["M", 69, 10, 1], ["M", 69, 11, 2], ["M", 132, None, 3], ["X", 2, 0]],
+        [["X", 2]], [["X", 1]], [["X", 0]],
+        [["M", 69, 10, 1], ["X", 0], ["M", 69, 11, 2]],
+        [["M", 69, None, 1], ["X", 2]],
+    ]
+    out = []
+    for bw in (False, True):
+        for cons, op, work in (("callbacks", 0, 0), ("iter", 0, 0), ("iter", 0, 2), ("poll", 0, 0)):
+            for others in APP_OTHERS:
+                for script in scripts:
+                    if len(script) < 3 and any(w > 0 for w, _ in others):
+                        continue
+                    out.append({"blockwise": bw, "consumer": cons, "open": op, "work": work, "others": others,
+                                "arrivals": [[2] + a for a in script]})
+    return out
+
+
+def app_tuning_cases(R):
+    """the request's transport tuning (c07_pipe.TUNINGS) x reordered / duplicated / renumbered notifications on a
+    clock, with gaps around the reset time that applies; both APIs, callbacks and iteration"""
+    out = []
+    for kind in c07_pipe.TUNINGS:
+        Rk = c07_pipe.tuned_reset_ticks(kind, R)
+        seqs = [[(10, 0), (12, 5), (11, 5), (12, 5), (13, 5), (5, Rk + 1), (6, 5), (3, Rk), (None, 5)],
+                [(10, 0), (9, Rk - 1), (8, 2), (11, 0), (11, Rk), (11, 1), (2, 9)],
+                [((1 << 24) - 1, 0), (0, 1), ((1 << 24) - 1, 1), ((1 << 23), Rk + 1), (0, Rk + 1), (0, Rk)]]
+        if Rk != R:
+            seqs.append([(10, 0), (9, R - 1), (9, R), (9, R + 1), (8, Rk + 1), (9, 1)])
+        for seq in seqs:
+            arr, at, t = [], [], 0
+            for i, (v, g) in enumerate(seq):
+                t += g
+                at.append(t)
+                arr.append([3, "M", 69 if v is not None else 132, v, i + 1])
+            for bw in (False, True):
+                for cons, op, work in (("callbacks", 0, 0), ("iter", 0, 0), ("iter", 0, 2)):
+                    out.append({"blockwise": bw, "consumer": cons, "open": op, "work": work, "tuning": kind,
+                                "arrivals": arr, "at": at})
+    return out
+
+
+def level_c_cases(env, R):
     out = [c["app"] for _, c in load_corpus("C07") if "app" in c]
+    out += app_concurrent_cases()
+    out += app_tuning_cases(R)
     for bw in (False, True):
         for cons, op, work in APP_CONSUMERS:
             for gaps in APP_GAPS:
@@ -932,13 +1048,26 @@ def level_c_cases(env):
             sc["rc"] = env.rng.choice([0, 0, 1])
             if sc["rc"] == 0:
                 sc["arrivals"] = [a for a in arr if a[1] == "M"]
+        elif env.rng.random() < 0.3:
+            sc["others"] = [[env.rng.randrange(-1, len(arr)), env.rng.randrange(2)]
+                            for _ in range(env.rng.randrange(1, 4))]
+            if env.rng.random() < 0.5 and len(arr) > 1:
+                k = env.rng.randrange(1, len(arr))
+                sc["arrivals"] = arr[:k] + [[env.rng.choice([0, 2]), "X", env.rng.choice([1, 2]), 1]] + arr[k:]
+        if env.rng.random() < 0.3:
+            sc["tuning"] = env.rng.choice(c07_pipe.TUNINGS[1:])
+            Rk = c07_pipe.tuned_reset_ticks(sc["tuning"], R)
+            t, sc["at"] = 0, []
+            for _ in sc["arrivals"]:
+                t += env.rng.choice([0, 1, 1, 5, Rk - 1, Rk, Rk + 1, R + 1])
+                sc["at"].append(t)
         out.append(sc)
     return out
 
 
-async def run_level_c(env, rep, aiocoap):
+async def run_level_c(env, rep, aiocoap, R):
     bench = c07_app.AppBench(aiocoap)
-    for sc in level_c_cases(env):
+    for sc in level_c_cases(env, R):
         res = await bench.run(sc)
         case = {"level": "c", "app": sc}
         items = [x for x in res["seen"] if x[0] == "item"]
@@ -961,6 +1090,18 @@ async def run_level_c(env, rep, aiocoap):
             rep.count("c:cancel-in-callback" + (":hit" if ("item", sc["cancel_at"]) in res["seen"] else ""))
         if any(a[1] == "M" and a[3] is not None and not 64 <= a[2] < 96 for a in sc["arrivals"]):
             rep.count("c:non-2.xx-with-observe")
+        if sc.get("tuning") is not None:
+            k = sc["tuning"]
+            rep.count("c:tuning=" + (k if isinstance(k, str) else "%s:%d" % tuple(k)))
+        if sc.get("others"):
+            for a in sc["arrivals"]:
+                if a[1] == "X" and a[2] != 0:
+                    rep.count("c:transport-failure-with-other-requests:" +
+                              ("other-peer" if len(a) > 3 and a[3] else "observed-peer"))
+            if any(w == -1 for w, _ in sc["others"]):
+                rep.count("c:observation-is-newest-entry")
+            for rem, st in res["others"]:
+                rep.count("c:other-request=" + st.split(":")[0])
         for x in res["seen"]:
             if x[0] != "item":
                 rep.count("c:end=" + x[0] + (":" + x[1] if len(x) > 1 else ""))
@@ -1026,7 +1167,7 @@ def run(env, rep):
         try:
             loop.run_until_complete(run_level_a(env, rep, bench, R, fams))
             loop.run_until_complete(run_level_i(env, rep, aiocoap))
-            loop.run_until_complete(run_level_c(env, rep, aiocoap))
+            loop.run_until_complete(run_level_c(env, rep, aiocoap, R))
             loop.run_until_complete(run_level_d(env, rep, aiocoap))
         finally:
             loop.close()
